@@ -61,3 +61,48 @@ Theorem C05_file_hasher_reproduces_bep52 : forall (H256 : bytes -> bytes) B, 0 <
   fh_layers H256 B pl d = bep52_recorded H256 B k pl d.
 Proof. exact fh_layers_recorded. Qed.
 Print Assumptions C05_file_hasher_reproduces_bep52.
+
+(* ---------------------------------------------------------------------------------------------- *)
+(* where the checker looks: Checker.find_root / check_paths (Model/CheckPaths.v)                  *)
+(* ---------------------------------------------------------------------------------------------- *)
+From TF Require Import Model.Bencode Model.CheckPaths Proofs.CheckPathsProofs.
+
+(* the payload root is taken as it is -- whatever it contains, an entry named like itself included *)
+Theorem C05_payload_root_is_itself : forall (exists_ : cpath -> bool) (listdir : cpath -> option (list bytes)) name path,
+  exists_ path = true -> last path [] = name -> find_root exists_ listdir name path = Some path.
+Proof. exact find_root_payload_root. Qed.
+Print Assumptions C05_payload_root_is_itself.
+
+(* the same root through the payload root and through its parent directory; the guard excludes exactly known finding D33 *)
+Theorem C05_root_or_parent_partial : forall (exists_ : cpath -> bool) (listdir : cpath -> option (list bytes)) name parent es,
+  exists_ parent = true -> exists_ (parent ++ [name]) = true ->
+  last parent [] <> name -> listdir parent = Some es -> In name es ->
+  find_root exists_ listdir name (parent ++ [name]) = find_root exists_ listdir name parent.
+Proof. exact find_root_root_or_parent. Qed.
+Print Assumptions C05_root_or_parent_partial.
+
+(* ... and without the guard the statement is false of the code as it is (D33, recorded as a known finding) *)
+Theorem C05_parent_named_like_payload_refuted :
+  exists (exists_ : cpath -> bool) (listdir : cpath -> option (list bytes)) (name : bytes) (parent : cpath),
+    exists_ parent = true /\ exists_ (parent ++ [name]) = true /\ listdir parent = Some [name] /\
+    find_root exists_ listdir name (parent ++ [name]) <> find_root exists_ listdir name parent.
+Proof. exact find_root_named_like_payload_refuted. Qed.
+Print Assumptions C05_parent_named_like_payload_refuted.
+
+(* a specification-conformant single-file v2 metafile (no info.length) checked against a file: one entry, the file itself,
+   with the recorded length and root -- the same answer as with the non-standard info.length (D32) *)
+Theorem C05_v2_single_file_without_length : forall info name root n r,
+  lookup ck_length info = None ->
+  meta_version_of info = 2 ->
+  lookup ck_file_tree info =
+    Some (BDict [(name, BDict [(ck_empty, BDict [(ck_length, BInt n); (ck_pieces_root, BStr r)])])]) ->
+  check_paths info name root true = Some ([mk_fi root n (Some r)], n).
+Proof. exact check_paths_v2_single_file_without_length. Qed.
+Print Assumptions C05_v2_single_file_without_length.
+
+(* v1, several files: one entry per listed file, in list order, under the root, with the RECORDED length *)
+Theorem C05_v1_files_listed_exactly : forall root (entries : list (list bytes * Z)),
+  Forall (fun e => fst e <> []) entries ->
+  v1_files root (map v1_item entries) = Some (map (fun e => mk_fi (root ++ fst e) (snd e) None) entries).
+Proof. exact v1_files_exact. Qed.
+Print Assumptions C05_v1_files_listed_exactly.
